@@ -3,6 +3,8 @@
 //
 //	go run -tags verif ./p/c16/repro
 //
+// The second part (wrongValue) shows the same root cause returning a wrong value silently.
+//
 // Layers carry no state; one trie node N (path "", account trie) is written by the first
 // layer so that every later root must be able to read it.
 package main
@@ -74,4 +76,82 @@ func main() {
 	}
 	fmt.Println("\nextending the fork (its depth reaches maxDiffLayers):")
 	fmt.Printf("Update(D2, C2)               -> %v\n", update(D2, C2, 4, false))
+
+	wrongValue()
+}
+
+// wrongValue shows the third symptom: a flat read at a live root silently returns the value
+// of ANOTHER state. maxDiffLayers=3. After B was flattened, C2 (sibling of the re-linked C1)
+// still points to the replaced diff layer object of B, whose parent is the stale former disk
+// layer with root A. A layer X added on top of C2 afterwards is therefore registered by
+// layerTree.fillAncestors in descendants[A]. If the chain returns to root A meanwhile (layer
+// A' = "B with the account set back", a child of the new disk layer B), the lookup index
+// takes A' for an ancestor of X and serves the account from it.
+func wrongValue() {
+	fmt.Println("\n---- third symptom: wrong value (maxDiffLayers=3) ----")
+	dir, _ := os.MkdirTemp("/dev/shm", "c16-repro-")
+	defer os.RemoveAll(dir)
+	disk, err := rawdb.Open(rawdb.NewMemoryDatabase(), rawdb.OpenOptions{Ancient: dir})
+	if err != nil {
+		panic(err)
+	}
+	pathdb.VerifSetMaxDiffLayers(3)
+	db := pathdb.New(disk, &pathdb.Config{NoAsyncFlush: true, NoAsyncGeneration: true, WriteBufferSize: 1 << 20}, false)
+	defer db.Close()
+
+	addr := common.Address{0x11}
+	key := crypto.Keccak256Hash(addr[:])
+	v1, v2 := []byte("account-value-in-state-A"), []byte("account-value-in-state-B")
+	root := func(b byte) common.Hash { return common.Hash{b} }
+	// update with an optional write of the account (val) over its previous value (prev)
+	update := func(r, parent common.Hash, blk uint64, val, prev []byte) error {
+		var accounts map[common.Hash][]byte
+		var origin map[common.Address][]byte
+		if val != nil {
+			accounts = map[common.Hash][]byte{key: val}
+			origin = map[common.Address][]byte{addr: prev}
+		}
+		return db.Update(r, parent, blk, trienode.NewMergedNodeSet(), pathdb.NewStateSetWithOrigin(accounts, nil, origin, nil, false))
+	}
+	must := func(what string, err error) {
+		fmt.Printf("%-44s -> %v\n", what, err)
+		if err != nil {
+			panic("unexpected")
+		}
+	}
+	A, B, C1, C2, D1, E1, X := root(0xa), root(0xb), root(0xc1), root(0xc2), root(0xd1), root(0xe1), root(0xf2)
+	must("Update(A, empty)   [account = v1]", update(A, types.EmptyRootHash, 1, v1, nil))
+	must("Update(B, A)       [account = v2]", update(B, A, 2, v2, v1))
+	must("Update(C1, B)", update(C1, B, 3, nil, nil))
+	must("Update(C2, B)      (fork)", update(C2, B, 3, nil, nil))
+	must("Update(D1, C1)     (flattens A)", update(D1, C1, 4, nil, nil))
+	must("Update(E1, D1)     (flattens B, C2 not re-linked)", update(E1, D1, 5, nil, nil))
+	must("Update(A, B)       [account = v1 again: root A]", update(A, B, 3, v1, v2))
+	must("Update(X, C2)      (does not touch the account)", update(X, C2, 4, nil, nil))
+
+	base, layers := db.VerifLayerTreeShape()
+	fmt.Printf("\ndisk layer root %x, registered layers:\n", base[:1])
+	for _, l := range layers {
+		fmt.Printf("  root %x disk=%v parentRoot=%x parentIsDiskLayerObject=%v\n", l.Root[:1], l.Disk, l.Parent[:1], l.ParentIsDisk)
+	}
+	fmt.Println("\nreading the account (v2 since B; only the layer with root A, a child of B, sets it back to v1):")
+	for _, r := range []common.Hash{B, C1, D1, E1, C2, X, A} {
+		sr, err := db.StateReader(r)
+		if err != nil {
+			fmt.Printf("  StateReader(%x): %v\n", r[:1], err)
+			continue
+		}
+		got, err := sr.(interface {
+			AccountRLP(common.Hash) ([]byte, error)
+		}).AccountRLP(key)
+		want := v2
+		if r == A {
+			want = v1
+		}
+		verdict := "ok"
+		if err != nil || string(got) != string(want) {
+			verdict = "WRONG, want " + string(want)
+		}
+		fmt.Printf("  StateReader(%x).AccountRLP: %q, err = %v   %s\n", r[:1], got, err, verdict)
+	}
 }
